@@ -116,6 +116,17 @@ def make_callable(sig, kind, uniq):
     that the library's process-wide signature cache cannot alias two generated callables (aliasing
     is the subject of the independence sub-check)."""
     ns = {}
+    if kind == "method-noself":
+        # a bound method whose function has no explicit `self`: the instance arrives in *args
+        # (a method wrapped by a decorator written without functools.wraps has this shape)
+        src = render(sig).replace("_l = dict(locals());",
+                                  "_l = dict(locals()); _l['args'] = _l['args'][1:];")
+        src = "class H:\n" + "".join("    " + ln + "\n" for ln in src.splitlines())
+        exec(src, ns)   # noqa: S102 - generated source
+        H = ns["H"]
+        H.__qualname__ = f"HN{uniq}"
+        H.cb.__qualname__ = f"HN{uniq}.cb"
+        return H().cb
     if kind == "method":
         src = "class H:\n" + "".join("    " + ln + "\n" for ln in
                                      render(sig, with_self=True).splitlines())
@@ -785,7 +796,8 @@ def worker(block):
     kinds = ("function", "method", "partial", "coroutine")
     for si, sig in enumerate(sigs):
         uniq = f"_{lo + si}"
-        for ki, kind in enumerate(kinds):
+        sig_kinds = kinds + (("method-noself",) if sig and sig[0][0] == VARPOS else ())
+        for ki, kind in enumerate(sig_kinds):
             if tier == "quick" and kind in ("partial",) and len(sig) > 3:
                 continue
             try:
